@@ -113,6 +113,7 @@ def chunks(tier):
         for ksp in KSPS:
             for a in range(len(PRECIP_LATTICE)):
                 out.append(("P", orient, ksp, a))
+    out += [("HR", i) for i in range(len(MUT_SYSTEMS))]
     return out
 
 
@@ -372,6 +373,42 @@ def run_solve_grid(es, names, latt):
 
 
 # --------------------------------------------------------------------------------------------- chunks
+MUT_SYSTEMS = [("water", "nh4"), ("water", "hac"), ("water", "h2co3", "hco3"), ("water", "nh4", "hac")]
+MUT_INITS = [1e-2, 1e-4]
+
+
+def check_mutated_system(res, tags, j, c, chain):
+    """ONE EqSystem solved, then reaction j replaced in place by an equivalent way of writing it (all coefficients
+    doubled, K squared), then solved again: the second answer is judged like any other claimed result (and is the
+    same composition, since the chemistry is unchanged)"""
+    import numpy as np
+    from chempy import Equilibrium
+
+    es, names, idx, K = build(tags, (0,) * len(tags))
+    init = [H2O if n == "H2O" else c for n in names]
+    what_sys = "%s init=%s" % ("+".join(tags), dict(zip(names, init)))
+    case = dict(layer="HR", tags=list(tags), j=j, c=c, chain=list(chain))
+    run = "root-after-rewriting-a-reaction|%s" % "+".join(chain)
+    res.states += 1
+    res.transitions += 2
+    res.nontrivial += 1
+    x1, s1, sane1, exc1 = run_root(es, names, init, chain, False)
+    r = es.rxns[j]
+    try:
+        es.rxns[j] = Equilibrium({k: 2 * v for k, v in r.reac.items()}, {k: 2 * v for k, v in r.prod.items()}, r.param ** 2)
+    except Exception as e:
+        res.outcomes["HR rewrite-raises"] += 1
+        return
+    x2, s2, sane2, exc2 = run_root(es, names, init, chain, False)
+    res.evaluations += 2
+    claim = _claim(s2, sane2, exc2)
+    kinds, mags = judge(names, idx, K, init, x2) if claim == "success+sane" else ([], {})
+    if claim == "success+sane" and not kinds and _claim(s1, sane1, exc1) == "success+sane":
+        if not np.allclose(x1, x2, rtol=1e-5, atol=1e-14):
+            kinds = ["differs-from-the-first-solution"]
+    _record(res, run, what_sys, case, claim, kinds, mags, x2)
+
+
 def run_chunk(chunk, tier):
     res = Result()
     if chunk[0] == "H":
@@ -406,6 +443,13 @@ def run_chunk(chunk, tier):
             else:
                 res.outcomes["liveness:ok"] += 1
         res.sample(dict(system=list(tags), species=names, K=K, lattice=list(latt), cases=res.states, default_chain_success=dict((r, v[1]) for r, v in live.items())), limit=1)
+    elif chunk[0] == "HR":
+        tags = MUT_SYSTEMS[chunk[1]]
+        for j in range(len(tags)):
+            for c in MUT_INITS:
+                for chain in (("Log",), ("Log", "Lin")):
+                    check_mutated_system(res, tags, j, c, chain)
+        res.sample(dict(layer="HR", system=list(tags), rewriting="coefficients x2, K**2, in place on the solved system"), limit=1)
     elif chunk[0] == "P":
         _, orient, ksp, ai = chunk
         es, names = build_precip(orient, ksp)
@@ -472,6 +516,9 @@ def replay(case):
         c = case["chunk"]
         r = run_chunk((c[0], tuple(c[1]), tuple(c[2]), tuple(c[3])), "quick")
         vs = [v for v in r.violations if v["case"].get("layer") == "live" and v["case"].get("run") == case["run"]]
+    elif case.get("layer") == "HR":
+        check_mutated_system(res, tuple(case["tags"]), case["j"], case["c"], tuple(case["chain"]))
+        vs = res.violations
     elif case.get("layer") == "P":
         es, names = build_precip(case["orient"], case["ksp"])
         extra = PRECIP_OPTIONS[case["options"]]
